@@ -64,6 +64,13 @@ def Impl.map {K K' : Type} (f : K → K') : Impl K → Impl K'
   | .rcons op rest => .rcons (op.map f) (rest.map f)
   | .dnil => .dnil
   | .dcons op rest => .dcons (op.map f) (rest.map f)
+  | .psnil n m => .psnil n m
+  | .pscons ro co op rest => .pscons ro co (op.map f) (rest.map f)
+  | .cmodsq n => .cmodsq n
+  | .cmodsqd n p => .cmodsqd n (fun k => f (p k))
+  | .realpart n => .realpart n
+  | .imagpart n => .imagpart n
+  | .cembed n a b => .cembed n (f a) (f b)
 
 section basics
 variable {K K' : Type}
@@ -79,6 +86,16 @@ end basics
 section dual
 variable {R : Type} [CommRing R]
 open Dual
+
+theorem natK_re (p : Nat) : (natK p : Dual R).re = natK p := by
+  induction p with
+  | zero => rfl
+  | succ p ih => simp [natK, ih]
+
+theorem natK_eps (p : Nat) : (natK p : Dual R).eps = 0 := by
+  induction p with
+  | zero => rfl
+  | succ p ih => simp [natK, ih]
 
 theorem pw_re (X : Dual R) (p : Nat) : (pw X p).re = pw X.re p := by
   induction p with
@@ -172,6 +189,15 @@ theorem run_map_re (i : Impl R) : ∀ (X : Vec (Dual R)) (k : Nat),
   | dcons op rest iho ihr =>
     intro X k; simp only [Impl.map, Impl.run, Impl.ran_map, Impl.dom_map]
     split <;> simp [iho, ihr]
+  | psnil n m => intro X k; simp [Impl.map, Impl.run]
+  | pscons ro co op rest iho ihr =>
+    intro X k; simp only [Impl.map, Impl.run, Impl.ran_map, Dual.re_add]
+    split <;> simp [iho, ihr]
+  | cmodsq n => intro X k; simp [Impl.map, Impl.run]
+  | cmodsqd n p => intro X k; simp [Impl.map, Impl.run, natK_re]
+  | realpart n => intro X k; rfl
+  | imagpart n => intro X k; rfl
+  | cembed n a b => intro X k; simp only [Impl.map, Impl.run]; split <;> simp
 
 end dual
 
@@ -314,6 +340,21 @@ theorem deriv_type (i : Impl R) : ∀ x : Vec R, i.wf = true →
     obtain ⟨r', e2, w2, d2, r2, f2, n2⟩ := ihr (fun j => x (op.dom + j)) h.1.2
     simp only [Impl.deriv]
     rw [e1, e2]; grind [Impl.wf, Impl.dom, Impl.ran, Impl.ranField, Impl.isLinear]
+  | psnil n m => intro x h; exact ⟨_, rfl, rfl, rfl, rfl, rfl, rfl⟩
+  | pscons ro co op rest iho ihr =>
+    intro x h
+    simp only [Impl.wf, Bool.and_eq_true, decide_eq_true_eq] at h
+    obtain ⟨o', e1, w1, d1, r1, f1, n1⟩ := iho (fun j => x (co + j)) h.1.1.1.1
+    obtain ⟨r', e2, w2, d2, r2, f2, n2⟩ := ihr x h.1.1.1.2
+    simp only [Impl.deriv]
+    split
+    · refine ⟨_, rfl, ?_, rfl, rfl, rfl, ?_⟩ <;> grind [Impl.wf, Impl.isLinear]
+    · rw [e1, e2]; grind [Impl.wf, Impl.dom, Impl.ran, Impl.ranField, Impl.isLinear]
+  | cmodsq n => intro x h; exact ⟨_, rfl, rfl, rfl, rfl, rfl, rfl⟩
+  | cmodsqd n p => intro x h; exact ⟨_, rfl, rfl, rfl, rfl, rfl, rfl⟩
+  | realpart n => intro x h; exact ⟨_, rfl, rfl, rfl, rfl, rfl, rfl⟩
+  | imagpart n => intro x h; exact ⟨_, rfl, rfl, rfl, rfl, rfl, rfl⟩
+  | cembed n a b => intro x h; exact ⟨_, rfl, rfl, rfl, rfl, rfl, rfl⟩
 end typing
 
 section linearity
@@ -413,6 +454,19 @@ theorem linear_sem (i : Impl R) : i.wf = true → i.isLinear = true →
     split
     · exact iho hw.1.1 hl.1 a x y k
     · exact ihr hw.1.2 hl.2 a (fun j => x (op.dom + j)) (fun j => y (op.dom + j)) _
+  | psnil n m => intro _ _ a x y k; simp [Impl.run]
+  | pscons ro co op rest iho ihr =>
+    intro hw hl a x y k
+    simp only [Impl.wf, Impl.isLinear, Bool.and_eq_true] at hw hl
+    simp only [Impl.run, ihr hw.1.1.1.2 hl.2]
+    split
+    · rw [iho hw.1.1.1.1 hl.1 a (fun j => x (co + j)) (fun j => y (co + j))]; ring
+    · ring
+  | cmodsq n => intro _ hl; simp [Impl.isLinear] at hl
+  | cmodsqd n p => intro _ _ a x y k; simp only [Impl.run]; ring
+  | realpart n => intro _ _ a x y k; rfl
+  | imagpart n => intro _ _ a x y k; rfl
+  | cembed n a b => intro _ _ a' x y k; simp only [Impl.run]; split <;> ring
 
 theorem linear_zero (i : Impl R) (hw : i.wf = true) (hl : i.isLinear = true) (k : Nat) :
     i.run (fun _ => 0) k = 0 := by
@@ -574,6 +628,17 @@ theorem deriv_linear (i : Impl R) : i.wf = true → i.isLinear = true →
       · exact iho hw.1.1 hl.1 _ _ eo d k
       · exact ihr hw.1.2 hl.2 _ _ er _ _
     · cases e
+  | psnil n m => intro _ _ x j e d k; cases e; rfl
+  | pscons ro co op rest iho ihr =>
+    intro hw hl x j e d k
+    simp only [Impl.isLinear] at hl
+    simp only [Impl.deriv, hl, if_true, Option.some.injEq] at e
+    subst e; rfl
+  | cmodsq n => intro _ hl; simp [Impl.isLinear] at hl
+  | cmodsqd n p => intro _ _ x j e d k; cases e; rfl
+  | realpart n => intro _ _ x j e d k; cases e; rfl
+  | imagpart n => intro _ _ x j e d k; cases e; rfl
+  | cembed n a b => intro _ _ x j e d k; cases e; rfl
 
 end linearity
 
@@ -845,6 +910,49 @@ theorem run_map_eps (i : Impl R) : i.wf = true → EpsOK i := by
       · exact iho hw.1.1 X _ eo k
       · exact ihr hw.1.2 (fun j => X (op.dom + j)) _ er _
     · cases e
+  | psnil n m => intro _ X j e k; cases e; rfl
+  | pscons ro co op rest iho ihr =>
+    intro hw X j e k
+    simp only [Impl.wf, Bool.and_eq_true] at hw
+    have hwo := hw.1.1.1.1
+    have hwr := hw.1.1.1.2
+    simp only [Impl.deriv] at e
+    split at e
+    · rename_i hl
+      simp only [Bool.and_eq_true] at hl
+      cases e
+      simp only [Impl.map, Impl.run, Dual.eps_add, Impl.ran_map]
+      rw [eps_of_linear rest hwr hl.2 (ihr hwr)]
+      split
+      · rw [eps_of_linear op hwo hl.1 (iho hwo)]
+      · rfl
+    · split at e
+      · rename_i o' r' eo er
+        cases e
+        obtain ⟨o'', eo', _, _, hr, _, _⟩ := deriv_type op (fun j => reV X (co + j)) hwo
+        rw [eo] at eo'; cases eo'
+        simp only [Impl.map, Impl.run, Dual.eps_add, Impl.ran_map, hr]
+        rw [ihr hwr X _ er k]
+        split
+        · rw [iho hwo (fun j => X (co + j)) _ eo]
+        · rfl
+      · cases e
+  | cmodsq n =>
+    intro _ X j e k
+    simp only [Impl.deriv, Option.some.injEq] at e
+    subst e
+    simp only [Impl.map, Impl.run, Dual.eps_add, Dual.eps_mul]
+    simp [natK]; ring
+  | cmodsqd n p =>
+    intro _ X j e k; cases e
+    simp only [Impl.map, Impl.run, Dual.eps_add, Dual.eps_mul, Dual.re_add, Dual.re_mul, Dual.eps_C,
+      Dual.re_C, natK_eps, natK_re]
+    ring
+  | realpart n => intro _ X j e k; cases e; rfl
+  | imagpart n => intro _ X j e k; cases e; rfl
+  | cembed n a b =>
+    intro _ X j e k; cases e
+    simp only [Impl.map, Impl.run]; split <;> simp
 
 end soundness
 
@@ -867,6 +975,11 @@ theorem IsHom.pw {φ : K → K'} (h : IsHom φ) (a : K) (p : Nat) : φ (pw a p) 
   induction p with
   | zero => exact h.one
   | succ p ih => simp only [Deriv.pw, h.mul, ih]
+
+theorem IsHom.natK {φ : K → K'} (h : IsHom φ) (p : Nat) : φ (natK p) = natK p := by
+  induction p with
+  | zero => exact h.zero
+  | succ p ih => simp only [Deriv.natK, h.add, ih, h.one]
 
 theorem IsHom.sumTo {φ : K → K'} (h : IsHom φ) (n : Nat) (f : Nat → K) :
     φ (sumTo n f) = sumTo n (fun j => φ (f j)) := by
@@ -922,6 +1035,16 @@ theorem run_map_hom {φ : K → K'} (h : IsHom φ) (i : Impl K) : ∀ (x : Vec K
     intro x k; simp only [Impl.map, Impl.run, Impl.ran_map, Impl.dom_map]; split
     · exact iho x k
     · exact ihr (fun j => x (op.dom + j)) _
+  | psnil n m => intro x k; simp only [Impl.map, Impl.run, h.zero]
+  | pscons ro co op rest iho ihr =>
+    intro x k; simp only [Impl.map, Impl.run, Impl.ran_map, h.add, ihr]; split
+    · rw [iho (fun j => x (co + j))]
+    · rw [h.zero]
+  | cmodsq n => intro x k; simp only [Impl.map, Impl.run, h.add, h.mul]
+  | cmodsqd n p => intro x k; simp only [Impl.map, Impl.run, h.add, h.mul, h.natK]
+  | realpart n => intro x k; rfl
+  | imagpart n => intro x k; rfl
+  | cembed n a b => intro x k; simp only [Impl.map, Impl.run]; split <;> simp [h.mul]
 
 end hom
 
